@@ -97,7 +97,7 @@ func runC19(c *Ctx, r *Report, tier string) {
 	}
 	// dropped errors
 	for fn := range scope {
-		for _, b := range fn.Blocks {
+		for _, b := range c.blocks(fn) {
 			for _, in := range b.Instrs {
 				ci, ok := in.(ssa.CallInstruction)
 				if !ok {
@@ -252,7 +252,7 @@ func runC19(c *Ctx, r *Report, tier string) {
 	} else {
 		dn := c.fname(dupCl)
 		var keys []string
-		for _, b := range dupCl.Blocks {
+		for _, b := range c.blocks(dupCl) {
 			for _, in := range b.Instrs {
 				if mu, ok := in.(*ssa.MapUpdate); ok {
 					keys = append(keys, c.term(mu.Key))
@@ -265,7 +265,7 @@ func runC19(c *Ctx, r *Report, tier string) {
 		r.Check(okK, "CHECKS", dn, "duplicate maps keyed by namespaced long name and short rune", c.pos(dupCl.Pos()), "keys: "+strings.Join(keys, " ; "), "duplicate maps are keyed by "+strings.Join(keys, " ; "))
 		// stores to the captured error: constructor results only
 		okS, nS := true, 0
-		for _, b := range dupCl.Blocks {
+		for _, b := range c.blocks(dupCl) {
 			for _, in := range b.Instrs {
 				if stI, ok := in.(*ssa.Store); ok {
 					if _, isFV := stI.Addr.(*ssa.FreeVar); isFV {
@@ -300,7 +300,7 @@ func runC19(c *Ctx, r *Report, tier string) {
 	// ---- TAGSCAN
 	scn := c.fname(scan)
 	nEsc := 0
-	for _, b := range scan.Blocks {
+	for _, b := range c.blocks(scan) {
 		iff, ok := b.Instrs[len(b.Instrs)-1].(*ssa.If)
 		if !ok {
 			continue
@@ -340,7 +340,7 @@ func runC19(c *Ctx, r *Report, tier string) {
 	}
 	r.Check(nEsc == 1, "TAGSCAN", scn, "escape test", c.pos(scan.Pos()), "one backslash test in the value scan", fmt.Sprintf("%d backslash tests", nEsc))
 	okAcc := false
-	for _, b := range scan.Blocks {
+	for _, b := range c.blocks(scan) {
 		for _, in := range b.Instrs {
 			if mu, ok := in.(*ssa.MapUpdate); ok {
 				t := c.term(mu.Value)
@@ -482,7 +482,7 @@ func (c *Ctx) modelRules(r *Report, ss *ssa.Function) {
 	checkLit := func(fn *ssa.Function, typ string, wants []want) {
 		fname := c.fname(fn)
 		var lit *ssa.Alloc
-		for _, b := range fn.Blocks {
+		for _, b := range c.blocks(fn) {
 			for _, in := range b.Instrs {
 				if al, ok := in.(*ssa.Alloc); ok && al.Comment == "complit" && typeName(al.Type()) == typ {
 					lit = al
